@@ -355,23 +355,28 @@ theorem accept_ok_iff (h : Handshake) (token : Bytes → Bytes) (ext : Option By
           · simp [bind, Except.bind, ho, hm, throw, throwThe, MonadExceptOf.throw] at hr
   · intro ⟨hsp, vextra, hx⟩
     exact ⟨_, accept_rendered h token ext sp extra vextra hsp hx⟩
-/-- an extra header whose name, as it would be sent (stripped), is `sec-websocket-protocol`, a pseudo header or empty
-    makes the accept fail, wherever it stands in the list -/
+/-- an extra header whose name, as it would be sent (stripped), is `sec-websocket-protocol`, a pseudo header, empty or not a
+    token makes the accept fail, wherever it stands in the list -/
 theorem forbidden_extra_refused (pre : Headers) (x : Header) (post : Headers)
     (hx : Bytes.strip x.1 = "sec-websocket-protocol".b ∨ nameRefused (Bytes.strip x.1) = true) :
     ∃ e, validateExtra (pre ++ x :: post) = .error e := by
   induction pre with
   | nil =>
-    simp only [List.nil_append, validateExtra, validatePartBytes]
+    simp only [List.nil_append, validateExtra, validateNameBytes, validatePartBytes]
     by_cases hc : hasCtl (Bytes.strip x.1) = true
     · exact ⟨.valueError, by simp [hc]⟩
-    · refine ⟨.exception, ?_⟩
-      simp only [hc, Bool.false_eq_true, if_false]
-      rcases hx with hx | hx <;> simp [hx]
+    · simp only [hc, Bool.false_eq_true, if_false]
+      by_cases hr : nameRefused (Bytes.strip x.1) = true
+      · exact ⟨.valueError, by simp [hr]⟩
+      · rcases hx with hx | hx
+        · refine ⟨.exception, ?_⟩
+          rw [hx] at hr
+          simp [hx, hr]
+        · exact absurd hx hr
   | cons a r ih =>
     obtain ⟨e, he⟩ := ih
     simp only [List.cons_append, validateExtra]
-    cases h1 : validatePartBytes a.1 with
+    cases h1 : validateNameBytes a.1 with
     | error e1 => exact ⟨_, rfl⟩
     | ok n =>
       simp only
